@@ -325,7 +325,7 @@ theorem run_mp (cid : Nat) (c : Cfg) (e : Env) (s : State) :
     by_cases hadm : e.adm = 2
     · simp only [hadm, if_true]
       intro k
-      rw [hcb, cancel_mpool, hmp k]; omega
+      rw [restoreStorage_mpool, hcb, cancel_mpool, hmp k]; omega
     simp only [hadm, if_false]
     have h2 := startApps_mpool cid e.blocked (order e.ps ctx.apps) [] s1
     generalize startApps cid e.blocked [] (order e.ps ctx.apps) s1 = r2 at h2
@@ -335,7 +335,7 @@ theorem run_mp (cid : Nat) (c : Cfg) (e : Env) (s : State) :
     | false =>
       dsimp only
       intro k
-      rw [hcb, cancel_mpool, h2, hmp k]; omega
+      rw [restoreStorage_mpool, hcb, cancel_mpool, h2, hmp k]; omega
     | true =>
       dsimp only
       have h3 := finishSettingUp_mp ctx e.post s2
@@ -346,6 +346,7 @@ theorem run_mp (cid : Nat) (c : Cfg) (e : Env) (s : State) :
       | false =>
         dsimp only
         intro k
+        rw [restoreStorage_mpool]
         unfold unsyncedStop
         dsimp only
         rw [h3.2.2, hcb, cancel_mpool, stopApps_mpool, h3.1, h3.2.1, h2, hmp k]; omega
@@ -476,7 +477,7 @@ theorem inv5_step {s : State} (h : Inv5 s) (op : Op) : Inv5 (step s op).1 := by
       simp only at hctx
       subst hctx
       dsimp only
-      rw [hcb, cancel_mpool, hmp k]; omega
+      rw [restoreStorage_mpool, hcb, cancel_mpool, hmp k]; omega
   | stop =>
     refine Inv5.mk (fun k => ?_) (fun ctx hx => ?_)
     · show (unsyncedStop s.cur s).mpool k = 0
